@@ -160,8 +160,11 @@ func shapeSwapJSON(t *model.Tree, target *schema.Node, repl string) string {
 
 var jsonRepl = []string{"null", "5", "\"x\"", "true", "{}", "[]", "[null]", "[5]", "[[]]", "[{}]", "{\"x\":1}", "[\"a\",{}]", "1e999", "-0", "\"\"", "[[1],[2]]"}
 var setValues = []string{"null", "5", "-1", "\"x\"", "true", "{}", "[]", "[1,2]", "[\"a\"]", "1e40", "3.7", "\"\"", "{\"a\":1}", "[null]", "99999999999999999999", "\"true\"", "[[1]]", "\"a b\"", "256", "-129", "\"YQ==\"", "\"***\""}
-var xpaths = []string{"%s=1", "%s='a'", "%s!=2", "%s<3", "%s>=0", "%s", "%s=", "=%s", "%s==1", "%s='", "(%s=1", "%s=1)", "%s/x=1", "../%s=1", "%s[1]", "%s=1 and %s=2", "*", "/", "", "%s<'z'", "%s>true", "zz=1", "%s=99999999999999999999"}
-var queries = []string{"depth=%d", "depth=0", "depth=-1", "depth=x", "content=config", "content=nonconfig", "content=bogus", "fields=%s", "fields=%s;%s", "fields=%s/%s", "fields=(", "fields=%s(", "fields=;", "fc.xfields=%s", "fc.xfields=%s/x/y/z", "fc.range=%s!1-2", "fc.range=%s!-", "fc.range=!", "fc.range=%s!x-y", "fc.range=%s!2-1", "fc.range=zz!1-2", "fc.max-node-count=1", "fc.max-node-count=0", "fc.max-node-count=-5", "with-defaults=trim", "with-defaults=bogus", "depth=1&fields=%s", "where=%s%%3D1", "filter=%s", "%%zz", "a=b&&&=", "fields=%s/%s/%s/%s/%s"}
+var longXPath = strings.Repeat("d/", 300) + "x"
+var manyOps = "a=1" + strings.Repeat(" and a=1", 100)
+
+var xpaths = []string{longXPath, manyOps, "%s" + strings.Repeat("/%s", 70) + "=1", "%s=1", "%s='a'", "%s!=2", "%s<3", "%s>=0", "%s", "%s=", "=%s", "%s==1", "%s='", "(%s=1", "%s=1)", "%s/x=1", "../%s=1", "%s[1]", "%s=1 and %s=2", "*", "/", "", "%s<'z'", "%s>true", "zz=1", "%s=99999999999999999999"}
+var queries = []string{"fields=" + strings.Repeat("a/", 300) + "b", "fields=" + strings.Repeat("a;", 300), "fc.xfields=" + strings.Repeat("(", 50), "depth=99999999999999999999", "fc.range=%s!1-99999999999999999999", "fc.max-node-count=99999999999999999999", "depth=%d", "depth=0", "depth=-1", "depth=x", "content=config", "content=nonconfig", "content=bogus", "fields=%s", "fields=%s;%s", "fields=%s/%s", "fields=(", "fields=%s(", "fields=;", "fc.xfields=%s", "fc.xfields=%s/x/y/z", "fc.range=%s!1-2", "fc.range=%s!-", "fc.range=!", "fc.range=%s!x-y", "fc.range=%s!2-1", "fc.range=zz!1-2", "fc.max-node-count=1", "fc.max-node-count=0", "fc.max-node-count=-5", "with-defaults=trim", "with-defaults=bogus", "depth=1&fields=%s", "where=%s%%3D1", "filter=%s", "%%zz", "a=b&&&=", "fields=%s/%s/%s/%s/%s"}
 
 func c13Gen(r *kit.Rng, id string) *req.Session {
 	rich := r.Chance(1, 2)
@@ -270,10 +273,18 @@ func c13Gen(r *kit.Rng, id string) *req.Session {
 						kids := payload.S.DataChildren()
 						if len(kids) > 0 {
 							t := kids[r.Intn(len(kids))]
-							x := r.Pick([]string{"<%s>text</%s>", "<%s><zz/></%s>", "<%s/>", "<%s><%s/></%s>", "<%s> </%s><%s>1</%s>"})
+							xi := r.Intn(5)
+							x := []string{"<%s>text</%s>", "<%s><zz/></%s>", "<%s/>", "<%s><%s/></%s>", "<%s> </%s><%s>1</%s>"}[xi]
 							frag := strings.ReplaceAll(x, "%s", t.Name)
 							rq.Doc = "<x>" + frag + "</x>"
 							rq.Damage = "shape-swap:" + t.Kind.String()
+							// text where elements are declared, elements where text is declared
+							switch {
+							case (t.Kind == schema.Container || t.Kind == schema.List) && xi == 0:
+								rq.MustReject = true
+							case (t.Kind == schema.Leaf || t.Kind == schema.LeafList) && (xi == 1 || xi == 3):
+								rq.MustReject = true
+							}
 						}
 					}
 				}
